@@ -546,6 +546,17 @@ func BigSlowRecycle(name string, sizes []int, bSize int, bound int) *world.Scena
 // (n > 1024, keys of nodes B and C) in ONE chunk, so that n fragments are queued to the backends by one loop round and n
 // completed replies pile up behind the unanswered head; when the head is answered all n+1 replies are flushed at once.
 // slow: the client also reads slowly, so the flush lands in the outbound buffer and is drained by writable events.
+// BigBatchOneNode: all n requests behind the head go to node B (exactly n fragments for one connection in one round).
+func BigBatchOneNode(name string, n int, bound int) *world.Scenario {
+	bigBatchOneNode = true
+	sc := BigBatch(name, n, false, bound)
+	bigBatchOneNode = false
+	sc.Name = fmt.Sprintf("%s/big-batch/%d-for-one-node-behind-stalled-head/d%d", name, n, bound)
+	return sc
+}
+
+var bigBatchOneNode bool
+
 func BigBatch(name string, n int, slow bool, bound int) *world.Scenario {
 	sc := &world.Scenario{Nodes: T3m(), Bound: bound, Family: "big-batch", Horizon: 20000, ReadCap: 65536, WriteCap: 65536, MaxLen: 1 << 20,
 		Ticks: []time.Duration{time.Millisecond}, WriteOracle: slow}
@@ -554,7 +565,7 @@ func BigBatch(name string, n int, slow bool, bound int) *world.Scenario {
 	var rest []byte
 	for j := 0; j < n; j++ {
 		var k string
-		if j%3 == 2 {
+		if j%3 == 2 && !bigBatchOneNode {
 			k = fmt.Sprintf("{%s}%d", keysC[1], j)
 		} else {
 			k = fmt.Sprintf("{%s}%d", keysB[1], j)
